@@ -352,6 +352,28 @@ type c15Env struct {
 	// product's own timer; waitTick sleeps until that has happened.
 	mem      bool
 	waitTick func(q *c15Seq) map[string]any
+	// hugeLeft is the number of bodies larger than 64 MiB still to be served.
+	hugeLeft int
+}
+
+// c15HugeText is a complete, well-formed list of more than 64 MiB: a few rules,
+// some 65-67 MiB of comment lines, and a few more rules (the probe among them)
+// behind them.  Its normal form is a dozen lines.
+func c15HugeText(rng *rand.Rand, probe string) *c15Text {
+	var sb bytes.Buffer
+	sb.WriteString("! Title: a very large list\n")
+	for i := 0; i < 3; i++ {
+		sb.WriteString(c15RuleLine(rng) + "\n")
+	}
+	pad := []byte("# padding padding padding padding padding padding padding pad\r\n")
+	sb.Write(bytes.Repeat(pad, (64<<20)/len(pad)+(1+rng.Intn(3))*(1<<20)/len(pad)))
+	for i := 0; i < 4; i++ {
+		sb.WriteString(c15RuleLine(rng) + "\n")
+	}
+	sb.WriteString(c15ProbeLine(rng, probe) + "\n")
+	sb.WriteString(c15RuleLine(rng) + "\n")
+
+	return &c15Text{Bytes: sb.Bytes(), Probe: probe, ProbeEnd: sb.Len(), Class: "larger-than-64-MiB"}
 }
 
 // c15Seq is one sequence: one DNSFilter, its lists and the history so far.
@@ -519,6 +541,18 @@ func (q *c15Seq) genBeh(l *c15ListM, cur *c15Snap, down bool) *c15Beh {
 	l.Ver++
 	probe := fmt.Sprintf("v%d.l%d.c15probe.test", l.Ver, l.Idx)
 	b := &c15Beh{}
+	if q.env.hugeLeft > 0 && l.Src == "http" && q.n >= 2 && !down {
+		// Nothing in the statement limits the size of a list: either it is
+		// stored completely, or the refresh fails and nothing changes.
+		q.env.hugeLeft--
+		t := c15HugeText(rng, probe)
+		for try := 0; try < 20 && len(c15Exotic(t.Bytes[:1<<10])) > 0; try++ {
+			t = c15HugeText(rng, probe)
+		}
+
+		return &c15Beh{Kind: []string{"ok-length", "ok-chunked"}[rng.Intn(2)], Text: t, Level: c15Either,
+			Zones: []string{"body-larger-than-64-MiB"}}
+	}
 	var coll *c15Text
 	okKind := func() string {
 		if l.Src == "file" {
@@ -825,7 +859,13 @@ func (q *c15Seq) step(si int) bool {
 	if anyDown && !q.env.mem {
 		q.env.second.stop()
 	}
+	t0 := time.Now()
 	info := q.refresh(st.Mode)
+	for _, b := range st.Beh {
+		if len(b.Text.Bytes) > 8<<20 {
+			rep.EventN("milliseconds_spent_in_the_refresh_with_a_body_over_64_MiB", int(time.Since(t0).Milliseconds()))
+		}
+	}
 	if restoreOpen != nil {
 		if err = restoreOpen(); err != nil {
 			rep.Inconcl("cannot restore a stored file: " + err.Error())
@@ -965,7 +1005,14 @@ func (q *c15Seq) step(si int) bool {
 			rep.Event("mtime_bumped_without_rewrite")
 		}
 
-		forms, _ := c15Forms(b.Text.Bytes)
+		var forms [][]byte
+		if len(b.Text.Bytes) > 8<<20 {
+			// The very large text is plain by construction: one reading.
+			nf, _ := c15Normalise(b.Text.Bytes, false, false, false)
+			forms = [][]byte{nf}
+		} else {
+			forms, _ = c15Forms(b.Text.Bytes)
+		}
 		// succeeded(f) lists what contradicts a successful refresh to form f.
 		newProbe := b.Text.Probe
 		succeeded := func(f []byte) (diffs []string, label string) {
@@ -1099,6 +1146,10 @@ func (q *c15Seq) step(si int) bool {
 						"expected_stored_form": c15Show(forms[bestForm])}))
 			default:
 				resyncEngines = true
+				if as.Exists && len(as.Bytes) < len(forms[bestForm]) && bytes.HasPrefix(forms[bestForm], bytes.TrimRight(as.Bytes, "\n")) &&
+					!bytes.Equal(as.Bytes, bs.Bytes) {
+					best = append([]string{"stored-file-is-a-truncated-form-of-the-served-content"}, best...)
+				}
 				rep.Violate(fmt.Sprintf("%s:either-outcome:%s:%s", st.Mode, bestLabel, c15DiffKey(best)),
 					fmt.Sprintf("content in an unspecified zone (%s) left the list neither unchanged (%s) nor in an acceptable normal form (%s)",
 						b.Text.Class, strings.Join(ud, ", "), strings.Join(best, ", ")),
@@ -1194,7 +1245,7 @@ func (q *c15Seq) resync(l *c15ListM, bs, as *c15Snap, b *c15Beh) {
 		l.PrevProbe, l.GoodProbe = l.GoodProbe, np
 	}
 	l.LastOK = nil
-	if b != nil && b.Level != c15MustFail {
+	if b != nil && b.Level != c15MustFail && len(b.Text.Bytes) < 8<<20 {
 		t := *b.Text
 		if b.Alt != nil {
 			t = *b.Alt
@@ -1546,6 +1597,7 @@ func TestVerifC15Refresh(t *testing.T) {
 	}
 	defer func() { env.second.stop() }()
 
+	env.hugeLeft = verifkit.Pick(1, 4)
 	nSeq := verifkit.Pick(450, 6000)
 	for n := 0; n < nSeq; n++ {
 		q, err := c15NewSeq(env, n)
